@@ -119,10 +119,21 @@ def helper_level(rep, rng, quick):
                 xb = fd.grid(rng, int(rng.integers(3, 8)), "nonuniform")
                 xc = fd.grid(rng, int(rng.integers(3, 6)), "shifted")
                 fb, fc = fd.dyadic_matrix(rng, 1, len(xb))[0] + 0.5, fd.dyadic_matrix(rng, 1, len(xc))[0] - 0.25
-                i1, i2, i3 = (_integrate(f1, x, method="simpson"), _integrate(fb, xb, method="simpson"),
-                              _integrate(fc, xc, method="simpson"))
-                l2 = _integrate(np.outer(f1, fb), x, xb, method="simpson")
-                l3 = _integrate(np.einsum("i,j,k->ijk", f1, fb, fc), x, xb, xc, method="simpson")
+                try:
+                    i1, i2, i3 = (_integrate(f1, x, method="simpson"), _integrate(fb, xb, method="simpson"),
+                                  _integrate(fc, xc, method="simpson"))
+                    l2 = _integrate(np.outer(f1, fb), x, xb, method="simpson")
+                    l3 = _integrate(np.einsum("i,j,k->ijk", f1, fb, fc), x, xb, xc, method="simpson")
+                    l3t = _integrate(np.einsum("i,j,k->ijk", f1, fb, fc), x, xb, xc, method="trapz")
+                    t3 = (_integrate(f1, x, method="trapz") * _integrate(fb, xb, method="trapz") * _integrate(fc, xc, method="trapz"))
+                except Exception as e:  # noqa: BLE001
+                    rep.violation(f"_integrate of a product integrand over grids of sizes {(len(x), len(xb), len(xc))} raised "
+                                  f"{type(e).__name__}: {e}"[:300],
+                                  {"x1": C.hexf(x), "x2": C.hexf(xb), "x3": C.hexf(xc), "f1": C.hexf(f1), "f2": C.hexf(fb), "f3": C.hexf(fc)})
+                    continue
+                if abs(l3t - t3) > 1e-9 * max(1.0, abs(t3)):
+                    rep.violation(f"trapezoid integration does not factorise over a 3-D product grid: {l3t!r} vs {t3!r}",
+                                  {"x1": C.hexf(x), "x2": C.hexf(xb), "x3": C.hexf(xc), "f1": C.hexf(f1), "f2": C.hexf(fb), "f3": C.hexf(fc)})
                 rep.case(("simpson-product", x.tobytes(), xb.tobytes(), xc.tobytes(), f1.tobytes()), kind="integrate-product/simpson")
                 bads = []
                 if abs(l2 - i1 * i2) > 1e-9 * max(1.0, abs(i1 * i2)):
@@ -134,9 +145,16 @@ def helper_level(rep, rng, quick):
                                   {"x1": C.hexf(x), "x2": C.hexf(xb), "x3": C.hexf(xc), "f1": C.hexf(f1), "f2": C.hexf(fb), "f3": C.hexf(fc)})
         if i % 6 == 0:
             m2, m3 = int(rng.integers(2, 5)), int(rng.integers(2, 5))
+            if i % 12 == 6:
+                m3 = m2                   # equal sizes on the 2nd and 3rd axes, different grids: a swap of axes would go unnoticed by shapes
             x2, x3 = fd.grid(rng, m2, "nonuniform"), fd.grid(rng, m3, "uniform-dyadic")
             Y = np.round(rng.uniform(-2, 2, size=(m, m2, m3)) * 8) / 8
-            v = _integrate(Y, x, x2, x3, method="trapz")
+            try:
+                v = _integrate(Y, x, x2, x3, method="trapz")
+            except Exception as e:  # noqa: BLE001
+                rep.violation(f"_integrate of a 3-D integrand of shape {Y.shape} over grids of sizes {(m, m2, m3)} raised "
+                              f"{type(e).__name__}: {e}"[:300], {"x1": C.hexf(x), "x2": C.hexf(x2), "x3": C.hexf(x3), "Y": C.hexf(Y)})
+                continue
             yl = "[" + "; ".join(C.qmat(Y[k]) for k in range(m)) + "]"
             t = run.add(f"qclose {C.qlit(1e-9 * max(1.0, abs(v)) * max(1.0, np.max(np.abs(x))))} "
                         f"(trapz3 opsQ {C.qlist(x)} {C.qlist(x2)} {C.qlist(x3)} {yl}) {C.qlit(v)}")
